@@ -477,10 +477,17 @@ def _nonneg(t):
     return t.op in ('discr_atom', 'b2i', 'bits') or (t.op == 'ite' and _nonneg(t.args[1]) and _nonneg(t.args[2]))
 
 
+ASSUME_UB = {}   # term id -> unsigned upper bound known on the current path (set by the interpreter)
+
+
 def upper_bound(t, bits):
     """a sound unsigned upper bound of an integer term, or None"""
     if is_const(t):
         return cbits(t)
+    if ASSUME_UB:
+        ub = ASSUME_UB.get(t.id)
+        if ub is not None:
+            return ub
     if t.op == 'b2i':
         return 1
     if t.op == 'discr_atom':
